@@ -112,8 +112,8 @@ def run(ctx):
             ctx.violation('a fully signed standard transaction does not parse back', {'op': 'roundtrip', 'error': repr(e)[:120], 'raw': raw.hex(), **info})
         for vname, base in variants:
             tampers = ['out_value', 'out_script', 'prev_txid', 'output_n', 'sequence', 'locktime', 'version', 'version_bytes', 'in_value', 'sig_corrupt',
-                       'sig_foreign', 'sig_drop', 'sig_hashtype']
-            for tm in (tampers if T else rng.sample(tampers, 6)):
+                       'sig_foreign', 'sig_drop', 'sig_hashtype', 'prev_txid_zero', 'sig_hashtype_other']
+            for tm in (tampers if T else rng.sample(tampers[:13], 5) + tampers[13:]):
                 tt = copy.deepcopy(base)
                 i = rng.randrange(len(tt.inputs))
                 m = d['meta'][i]
@@ -145,6 +145,29 @@ def run(ctx):
                             expect = 'valid'          # a legacy digest does not commit to the amount
                         # the network uses the real amount: the serialisation is unchanged and stays valid there
                         po2 = None
+                    elif tm == 'prev_txid_zero':
+                        # the outpoint's transaction id replaced by zeros in the bytes a receiver gets (the output number stays, so this is
+                        # not the null outpoint of a coinbase transaction)
+                        braw = raw_of(base)
+                        pos = braw.find(base.inputs[i].prev_txid[::-1] + base.inputs[i].output_n[::-1])
+                        if pos < 0 or base.inputs[i].output_n == b'\xff\xff\xff\xff':
+                            continue
+                        tt = Transaction.parse_bytes(braw[:pos] + b'\0' * 32 + braw[pos + 32:], strict=False)
+                        for j, mm in enumerate(d['meta']):
+                            tt.inputs[j].value = mm['val']
+                    elif tm == 'sig_hashtype_other':
+                        # the hash type byte of a LATER signature of a multisig input (every signature names its own digest)
+                        if m['m'] < 2 or m['kind'] not in ('p2sh_ms', 'p2wsh_ms', 'p2sh_p2wsh_ms') or len(base.inputs[i].signatures) < 2:
+                            continue
+                        braw = raw_of(base)
+                        sigb = base.inputs[i].signatures[rng.randrange(1, len(base.inputs[i].signatures))].as_der_encoded()
+                        pos = braw.find(sigb)
+                        if pos < 0:
+                            continue
+                        braw2 = braw[:pos] + sigb[:-1] + bytes([rng.choice([0x02, 0x03, 0x81, 0x82, 0x83, 0x00, 0x41])]) + braw[pos + len(sigb):]
+                        tt = Transaction.parse_bytes(braw2, strict=False)
+                        for j, mm in enumerate(d['meta']):
+                            tt.inputs[j].value = mm['val']
                     elif tm in ('sig_corrupt', 'sig_foreign', 'sig_drop', 'sig_hashtype'):
                         # tamper with the *serialisation*, then parse: this is what a receiver of the bytes sees
                         braw = raw_of(base)
